@@ -34,8 +34,18 @@ def record(oc, prop, fid, reproduces, detail):
         oc.notes.append("finding %s no longer reproduces on this tree (move it to a fixed: line)" % fid)
 
 
-def uml_dup_known_shape(names):
-    return bool(names) and all(UML_DUP_RE.match(n) for n in names)
+UML_DUP_WITNESS_TAGS = {"USER_void_AbstractLayer_Recv_1_PARAMS", "USER_void_AbstractLayer_Send_1_PARAMS"}
+
+
+def uml_dup_known_shape(names, model=None):
+    """the recorded finding, identified by its input: the shipped ProtocolStack diagram, class AbstractLayer, the
+    overloads Send/1 and Recv/1.  Any other duplicated tag - another class, another diagram, a synthesised model
+    (which never contains two operations agreeing in name and parameter count) - is a different violation."""
+    if not names or not all(UML_DUP_RE.match(n) for n in names):
+        return False
+    if model is not None and (model.get("synth") or model.get("diagram") != "ProtocolStack"):
+        return False
+    return set(names) <= UML_DUP_WITNESS_TAGS
 
 
 def uml_dup_witness(runner, backend="umlcs"):
